@@ -246,7 +246,87 @@ def prior_job(job):
     return acc
 
 
+def check_queued(acc: Acc, case):
+    """While the request under test is in flight (its answer arrives in two pieces, both in time), further callers queue
+    up on the same protocol object - before the first piece, between the pieces or after them.  Queued callers must not
+    disturb the reassembly: the request succeeds with the unsplit bytes after ONE transmission."""
+    import asyncio
+    from vlib.vloop import ScriptedPeer, VLoop, World
+    global CONTENT
+    CONTENT = "pattern"
+    acc.case()
+    transport, T, R, count = case["transport"], case["T"], case["R"], case["count"]
+    cmd_spec, F, F2 = frames(transport, count)
+    s, d1, d2 = case["split"]
+    acc.nontrivial("queued", transport, case["keep"], T, R, count, tuple(case["split"]), tuple(case["others"]))
+    peer = ScriptedPeer(netcase.make_responder(transport), netcase.to_actions([["multi", [[d1, F[:s]], [d2, F[s:]]]]], T), default=("answer", 2 * T / 16.0))
+    world = World(peer)
+    loop = VLoop(world, max_time=1e5)
+    protocol = netcase.make_protocol(transport, T, R, case["keep"])
+    out = {}
+
+    async def first():
+        try:
+            out["first"] = ("ok", (await netcase.make_command(transport, protocol, cmd_spec).execute(protocol)).raw_data)
+        except Exception as ex:
+            out["first"] = (type(ex).__name__, None)
+
+    async def other(i, ticks):
+        await asyncio.sleep(netcase.secs(ticks, T) + 1e-6)
+        spec = ("aa55", "010200", "0182") if transport == "aa55" else (("read", 36000 + i, 3), ("write", 47510, i))[i % 2]
+        try:
+            await netcase.make_command(transport, protocol, spec).execute(protocol)
+            out[i] = "ok"
+        except Exception as ex:
+            out[i] = type(ex).__name__
+
+    async def main():
+        await asyncio.gather(first(), *[other(i, t) for i, t in enumerate(case["others"])])
+
+    res = loop.run(main())
+    loop.idle()
+    loop.shutdown()
+    if res.hang or res.exc:
+        return [("C07|%s|queued|hang" % transport, "%r %r" % (res.hang, res.exc), case)]
+    fails = []
+    mine = [e for e in world.tx if netcase.same_request(transport, world.tx[0][2], e[2])]
+    kind, data = out.get("first", ("missing", None))
+    if kind != "ok":
+        fails.append(("C07|%s|queued|exact-remainder-not-reassembled" % transport,
+                      "split at %d, pieces at +%d/+%d ticks, other callers queued at +%s ticks: outcome %s, %d transmissions of the request" % (
+                          s, d1, d2, case["others"], kind, len(mine)), case))
+    elif data != F:
+        fails.append(("C07|%s|queued|reassembled-bytes-differ" % transport, "result differs from the unsplit frame", case))
+    elif len(mine) != 1:
+        fails.append(("C07|%s|queued|retransmitted-despite-remainder" % transport,
+                      "split at %d, pieces at +%d/+%d ticks, other callers queued at +%s ticks: %d transmissions of the request" % (
+                          s, d1, d2, case["others"], len(mine)), case))
+    return fails
+
+
+def queued_job(job):
+    transport, keep, count = job
+    acc = Acc()
+    cmd, F, F2 = frames(transport, count)
+    hdr = MIN_HEADER[transport]
+    splits = sorted({hdr, hdr + 2, len(F) // 2, len(F) - 1} & set(range(hdr, len(F))))
+    for s in splits:
+        for (d1, d2) in ((2, 8), (0, 14), (5, 5), (3, 15)):
+            for others in ((1,), (4,), (d1,), (d2,), (1, 4), (4, 4, 6), (9, 12)):
+                case = {"queued": True, "transport": transport, "keep": keep, "T": 1.0, "R": 1, "count": count,
+                        "split": [s, d1, d2], "others": list(others)}
+                for key, msg, c in check_queued(acc, case):
+                    acc.fail(key, msg, c)
+    if len(acc.samples) < 1:
+        acc.sample(case)
+    return acc
+
+
 def _apply(acc, case):
+    if case.get("queued"):
+        for key, msg, c in check_queued(acc, case):
+            acc.fail(key, msg, c)
+        return
     if case.get("after_prior"):
         for key, msg, c in check_after_prior(acc, case):
             acc.fail(key, msg, c)
@@ -387,6 +467,7 @@ def run(ctx):
     ctx.shard(negative_job, neg, "wrong second pieces and cross-transmission leftovers on a grid")
     pj = [(t, k, c) for t in ("udp", "aa55", "tcp") for k in (False, True) for c in ((4, 33) if ctx.quick else (1, 4, 33, 125))]
     ctx.shard(prior_job, pj, "second request on the same protocol object after a request that was itself answered in fragments (splits x timings x gap)")
+    ctx.shard(queued_job, pj, "other callers queue up on the same protocol object while the split answer is arriving")
     n = ctx.pick(4800, 100000)
     ctx.shard(hyp_job, [(ctx.seed * 1000 + i, n // 16) for i in range(16)], "hypothesis: free delivery lists over up to R+1 transmissions")
 
